@@ -1,3 +1,41 @@
-(** C13 — property theorems (statements only; proofs by [exact]). *)
+(** C13 — property theorems (statements only; proofs by [exact]).
+    [sieve N] is the model of [Sieve::new(N)] (Model.v); [pdiv], [prime], [prime_decomp] are the
+    Mathematical Components definitions (least divisor > 1, primality, sorted factorisation). *)
 From mathcomp Require Import all_ssreflect.
-From RlibV Require Import C13.Model.
+From RlibV Require Import C13.Model C13.ProofsBreak C13.ProofsInv.
+
+(** the loop invariant: the state after the outer iterations with index 2 .. i (i = k+1) of a table
+    of length n: cells up to i hold their least prime factor (0 for 0 and 1); a cell above i holds
+    its least prime factor iff it is composite with cofactor <= i, else still 0; the prime list is
+    the primes <= i in increasing order; isp marks exactly the primes <= i *)
+Theorem c13_invariant : forall n k : nat, k.+1 < n ->
+  let s := sieve_upto n k in let i := k.+1 in
+  [/\ size (mnp s) = n /\ size (isp s) = n,
+      forall m, m < n -> m <= i -> nth 0 (mnp s) m = if m < 2 then 0 else pdiv m,
+      forall m, m < n -> i < m ->
+        nth 0 (mnp s) m = if ~~ prime m && (m %/ pdiv m <= i) then pdiv m else 0,
+      prs s = [seq p <- iota 0 i.+1 | prime p] &
+      forall m, m < n -> nth false (isp s) m = (m <= i) && prime m].
+Proof. exact invariant. Qed.
+
+(** min_prime(n) is the least prime factor, for every limit N and every 2 <= n <= N *)
+Theorem c13_min_prime : forall N n : nat, 1 < n <= N -> min_prime (sieve N) n = pdiv n.
+Proof. exact min_prime_correct. Qed.
+
+(** is_prime(n) is exact for every 0 <= n <= N (false for 0 and 1) *)
+Theorem c13_is_prime : forall N n : nat, n <= N -> is_prime (sieve N) n = prime n.
+Proof. exact is_prime_correct. Qed.
+
+(** primes() is the list of all primes <= N in increasing order *)
+Theorem c13_primes : forall N : nat, primes_of (sieve N) = [seq p <- iota 0 N.+1 | prime p].
+Proof. exact primes_correct. Qed.
+
+(** the tables have length N + 1 *)
+Theorem c13_sizes : forall N : nat, size (mnp (sieve N)) = N.+1 /\ size (isp (sieve N)) = N.+1.
+Proof. exact sizes_correct. Qed.
+
+(** the literal stop-flag inner loop equals the take-while form (the break test can be evaluated
+    against the value of mnp[i] before the loop, because no write of the loop touches cell i) *)
+Theorem c13_break_is_takewhile : forall (n i : nat) (ps m : seq nat),
+  0 < i -> 1 \notin ps -> inner n i ps m = inner_tw n i ps m.
+Proof. exact inner_takewhile. Qed.
